@@ -28,7 +28,7 @@ from ..models import lifecycle as M
 
 DT = 1.0
 O = 2  # neurons per population
-ISZ = {"c0": 3, "c1": 2, "feedfwd": 3, "lateral": O, "feedback": O, "serial": 3}
+ISZ = {"c0": 3, "c1": 2, "feedfwd": 3, "lateral": O, "feedback": O, "serial": 3, "ca": 3, "cb": 2}
 KINDS = {  # layer kind -> (connections, neurons, cells), LOCAL names; consecutive cells share a population
     "bi21": (["c0", "c1"], ["n0"], [("c0", "n0"), ("c1", "n0")]),
     "bi12": (["c0"], ["n0", "n1"], [("c0", "n0"), ("c0", "n1")]),
@@ -36,10 +36,12 @@ KINDS = {  # layer kind -> (connections, neurons, cells), LOCAL names; consecuti
     "rec": (["feedfwd", "lateral", "feedback"], ["feedfwd", "feedback"],
             [("feedfwd", "feedfwd"), ("feedback", "feedfwd"), ("lateral", "feedback")]),
     "ser": (["serial"], ["serial"], [("serial", "serial")]),
+    # generic inferno.neural.Layer (minimal subclass, summing wiring): cells exist only once requested via add_cell
+    "gen": (["ca", "cb"], ["nx"], [("ca", "nx"), ("cb", "nx")]),
 }
 LAYERS = {  # topology -> layers (name, kind); two-layer topologies reuse the same component names
     "bi21": [("A", "bi21")], "bi12": [("A", "bi12")], "bi22": [("A", "bi22")], "rec": [("A", "rec")],
-    "ser2": [("A", "ser"), ("B", "ser")], "bi21x2": [("A", "bi21"), ("B", "bi21")],
+    "ser2": [("A", "ser"), ("B", "ser")], "bi21x2": [("A", "bi21"), ("B", "bi21")], "gen": [("A", "gen")],
 }
 LOC = {}  # global component name -> (layer name, local name)
 TOPO, CELLS = {}, {}
@@ -74,10 +76,37 @@ def _neuron(B):
     return ExactNeuron((O,), DT, rest_v=-60.0, thresh_v=-45.0, batch_size=B)
 
 
+_GENERIC = []
+
+
+def _generic_layer_class():
+    if not _GENERIC:
+        from inferno.neural import Layer
+
+        class SummingLayer(Layer):
+            """Smallest concrete Layer: every neuron group receives the sum of all connection outputs."""
+
+            def wiring(self, inputs, **kwargs):
+                total = None
+                for v in inputs.values():
+                    total = v if total is None else total + v
+                return {n: total for n in self.neurons_}
+
+        _GENERIC.append(SummingLayer)
+    return _GENERIC[0]
+
+
 def _build_layer(kind, B, delayed):
     from inferno.neural import Biclique, RecurrentSerial, Serial
 
     conns, neurons, _ = KINDS[kind]
+    if kind == "gen":
+        layer = _generic_layer_class()()
+        for c in conns:
+            layer.add_connection(c, _connection(ISZ[c], O, B, delayed))
+        for n in neurons:
+            layer.add_neuron(n, _neuron(B))
+        return layer
     if kind == "rec":
         return RecurrentSerial(
             _connection(ISZ["feedfwd"], O, B, delayed), _connection(O, O, B, delayed),
@@ -130,6 +159,8 @@ class Impl:
         self.delayed = case["delayed"]
         torch.manual_seed(1234)
         self.layers = {l: _build_layer(kind, self.B, self.delayed) for l, kind in LAYERS[self.topo]}
+        self.kinds = dict(LAYERS[self.topo])
+        self.cellrefs = {}  # generic layer: cell key -> weakref of the Cell handed out by layer.add_cell
         self.trainers = {}
         self.held = {}  # (idx, cname, mname, uid) -> strong reference kept by the "user"
         self.refs = {}  # uid -> weakref of the implementation object
@@ -138,6 +169,21 @@ class Impl:
     def cell(self, key):
         (l, c), (_, n) = LOC[key[0]], LOC[key[1]]
         return self.layers[l].get_cell(c, n)
+
+    def request_cell(self, ctx, key):
+        """The cell a user hands to register_cell.  Generic layer: layer.add_cell(connection, neuron), documented to
+        create the cell only if it does not exist — asking again must return the same object."""
+        (l, c), (_, n) = LOC[key[0]], LOC[key[1]]
+        if self.kinds[l] != "gen":
+            return self.layers[l].get_cell(c, n)
+        with impl(f"{ctx.what}: layer.add_cell({c}, {n})"):
+            cell = self.layers[l].add_cell(c, n)
+        prev = self.cellrefs.get(key)
+        prev = prev() if prev is not None else None
+        check(prev is None or cell is prev, "layer:add_cell",
+              lambda: f"{ctx.what}: layer.add_cell({c}, {n}) returned a new Cell although the pair already has one", ctx)
+        self.cellrefs[key] = weakref.ref(cell)
+        return cell
 
     def connection(self, g):
         l, c = LOC[g]
@@ -189,7 +235,7 @@ class Ctx:
         self.stats = dict.fromkeys(
             ["mode_switch", "alias_now", "late_join", "del_then_train", "del_shared_then_train", "two_on_cell",
              "tstep", "tstep_value", "train_steps", "dropped", "gc_checked", "skipped", "shadow_skipped",
-             "unique_replace", "clears", "obs", "updates", "empty_add", "rereg", "readd", "eval_add"], 0)
+             "unique_replace", "clears", "obs", "updates", "empty_add", "rereg", "readd", "eval_add", "diecell"], 0)
         self.last = "construct"
         self.probe_spec = {}  # (trainer, cell name, probe name) -> (post, k, g) of the request that created it
         self.pending_del = False  # a deletion happened, no training step of a survivor yet
@@ -356,8 +402,10 @@ def _register(ctx, idx, key, hp):
     tm = w.trainers[idx]
     cname = _cname(key)
     shared_before = {m.uid for m in tm.objects()}
+    cell = im.request_cell(ctx, key)
     with impl(ctx.what):
-        im.trainers[idx].register_cell(cname, im.cell(key), **_cell_kwargs(tm.ttype, hp))
+        im.trainers[idx].register_cell(cname, cell, **_cell_kwargs(tm.ttype, hp))
+    del cell
     w.register_cell(idx, cname, key, hp)
     e = tm.cells[cname]
     e.required = {s["name"] for s in M.trainer_monitors(tm.ttype, hp, DT, key[0], key[1])}
@@ -660,6 +708,35 @@ def _apply(ctx: Ctx, op):
         _compare(ctx)
         _step(ctx, op[4] ^ 0x155)
         st_["readd"] += 1
+    elif name == "diecell":
+        # generic layer only: a registered cell dies WITHOUT trainer.del_cell (layer.del_cell, last reference dropped,
+        # gc.collect()), is re-created by layer.add_cell and registered again under the same name: the pool must
+        # purge the dead cell's monitor group.  (What the trainer lists between death and re-registration is not
+        # specified and not examined; only generated when exactly one trainer holds the cell.)
+        idx = pick_trainer(op[1])
+        if idx is None or not w.trainers[idx].cells or im.kinds.get("A") != "gen":
+            return
+        tm = w.trainers[idx]
+        cname = sorted(tm.cells)[op[2] % len(tm.cells)]
+        e = tm.cells[cname]
+        key, hp = e.cellkey, e.hp
+        if any(e2.cellkey == key for j, t2 in w.trainers.items() if j != idx for e2 in t2.cells.values()):
+            return
+        (l, c), (_, n) = LOC[key[0]], LOC[key[1]]
+        ref = im.cellrefs.pop(key, None)
+        with impl(ctx.what + " [layer.del_cell]"):
+            im.layers[l].del_cell(c, n)
+        gc.collect()
+        check(ref is None or ref() is None, "gc:leak", lambda: f"{ctx.what}: the Cell deleted from the layer is still alive after gc.collect()", ctx)
+        for hk in [hk for hk in im.held if hk[0] == idx and hk[1] == cname]:
+            del im.held[hk]
+        w.del_cell(idx, cname)  # the re-registration is documented to delete what a dead cell left behind
+        w.namemap.pop(key, None)
+        ctx.last = "reg"
+        _register(ctx, idx, key, hp)
+        _compare(ctx)
+        _step(ctx, op[3])
+        st_["diecell"] += 1
     elif name == "evaladd":
         # trainer.eval() -> add_monitor / register_cell while in eval -> step -> train() -> step
         idx = pick_trainer(op[1])
@@ -894,7 +971,7 @@ def run_lifecycle(case):
     s = ctx.stats
     cls = [f"topo={case['topo']}", "trainers=" + "+".join(case["trainers"])]
     for k in ("late_join", "del_then_train", "del_shared_then_train", "two_on_cell", "tstep", "tstep_value",
-              "dropped", "gc_checked", "unique_replace", "clears", "updates", "empty_add", "rereg", "readd", "eval_add", "mode_switch", "shadow_skipped", "alias_now"):
+              "dropped", "gc_checked", "unique_replace", "clears", "updates", "empty_add", "rereg", "readd", "eval_add", "diecell", "mode_switch", "shadow_skipped", "alias_now"):
         if s[k]:
             cls.append(k)
     nt = bool(s["alias_now"] and s["del_then_train"] and s["mode_switch"] and s["train_steps"] >= 2)
@@ -932,6 +1009,7 @@ def _op():
         (1, st.tuples(st.just("rereg"), r, r, hp, r, _bits)),
         (1, st.tuples(st.just("readd"), r, r, r, _bits)),
         (1, st.tuples(st.just("evaladd"), r, r, r, r, hp, r, r, r, r, _bits)),
+        (1, st.tuples(st.just("diecell"), r, r, _bits)),
     ]
     return st.one_of(*[s_ for w_, s_ in weighted for _ in range(w_)]).map(list)
 
@@ -941,7 +1019,7 @@ _STRUCT = {"reg", "delc", "addm", "delm", "tmode", "lmode", "clear", "drop", "ne
 
 @st.composite
 def lifecycle_case(draw, tier="quick"):
-    topo = draw(st.sampled_from(["bi21", "bi21", "bi12", "bi12", "bi22", "bi22", "rec", "rec", "ser2", "bi21x2"]))
+    topo = draw(st.sampled_from(["bi21", "bi21", "bi12", "bi12", "bi22", "bi22", "rec", "rec", "ser2", "bi21x2", "gen", "gen"]))
     B = draw(st.sampled_from([1, 2]))
     delayed = draw(st.integers(0, 5)) == 0
     if delayed:
@@ -999,6 +1077,8 @@ def lifecycle_case(draw, tier="quick"):
     if chance(3):
         blocks.append([["evaladd", draw(st.integers(0, 1)), draw(_raw), draw(_raw), draw(_raw), draw(st.sampled_from([0, 0, 1, 2])),
                         draw(_raw), draw(_raw), draw(_raw), draw(_raw), bits()]])
+    if topo == "gen" and chance(6):
+        blocks.append([["diecell", t0, draw(_raw), bits()]])
     follow = chance(8)
     out = []
     for op in body:
